@@ -92,6 +92,16 @@ func (p *pipeline) executeStage(parentStageID string, stage stagepkg.Stage) {
 	stageID := uuid.New().String()
 	p.sm.executeStage(parentStageID, stageID, stage)
 
+	defer func() {
+		// a panic of an inline stage(plan or next stages planning) must complete that stage with error,
+		// otherwise the pending count never reaches zero when it runs under a pooled parent stage.
+		if r := recover(); r != nil {
+			err := errorpkg.Error(r)
+			p.logger.Error("execute query stage panic", logger.Error(err), logger.Stack())
+			p.sm.completeStage(stageID, err)
+		}
+	}()
+
 	stage.Execute(stage.Plan(), func() {
 		// after current stage execute completed, then plan next stages
 		nextStages := stage.NextStages()
